@@ -96,6 +96,7 @@ def dry(job):
                 entered.add(frame.f_globals.get('__name__', '?') + '.' + getattr(co, 'co_qualname', co.co_name))
     n = 0
     bad = []
+    tags = []          # (obligation, tag returned, inside the quick domain, inside the thorough domain, kwargs)
     for name, kw in hmod.dry_runs():
         fn = getattr(hmod, name)
         n += 1
@@ -107,10 +108,14 @@ def dry(job):
                 sys.setprofile(None)
             if not (isinstance(v, int) and v > 0):
                 bad.append([name, repr(kw)[:200], repr(v)])
+            else:
+                ob = getattr(fn, 'obligation', None)
+                if ob is not None:
+                    tags.append([name, v, ob.in_domain('quick', kw), ob.in_domain('thorough', kw), repr(kw)[:300]])
         except BaseException as e:
             sys.setprofile(None)
             bad.append([name, repr(kw)[:200], '%s: %s' % (type(e).__name__, e)])
-    return {'dry_runs': n, 'dry_failures': bad[:5], 'n_dry_failures': len(bad), 'entered': sorted(entered)}
+    return {'dry_runs': n, 'dry_failures': bad[:5], 'n_dry_failures': len(bad), 'entered': sorted(entered), 'tags': tags}
 
 
 def probe(job):
